@@ -76,11 +76,9 @@ func (h *NFSProcedureHandler) HandleCall(call *RPCCall, body io.Reader, authCtx 
 	// Acquire policy read lock. TryRLock fails if a policy update (Lock)
 	// is in progress, causing us to return JUKEBOX so clients retry.
 	if !handler.policyRWMu.TryRLock() {
-		// Policy drain in progress -- return NFSERR_JUKEBOX
-		var buf bytes.Buffer
-		xdrEncodeUint32(&buf, NFSERR_JUKEBOX)
-		reply.Data = buf.Bytes()
-		return reply, nil
+		// Policy drain in progress -- ask the client to retry, in the
+		// result shape of the procedure it called
+		return drainReply(call, reply), nil
 	}
 	// DO NOT defer RUnlock here -- the goroutine owns the lock so that
 	// drain-and-swap blocks until the goroutine's filesystem work finishes,
@@ -173,6 +171,35 @@ func (h *NFSProcedureHandler) HandleCall(call *RPCCall, body io.Reader, authCtx 
 	case result := <-replyChan:
 		return result, nil
 	}
+}
+
+// drainReply builds the reply for a call that arrives while a policy update
+// drains in-flight requests. NFSv3 procedures get NFS3ERR_JUKEBOX in their own
+// failure shape (RFC 1813), MOUNT MNT gets MNT3ERR_SERVERFAULT, procedures
+// without a status in their result (NULL, MOUNT DUMP/UMNT/...) and calls that
+// cannot be served anyway get accept_stat SYSTEM_ERR, which carries no results.
+func drainReply(call *RPCCall, reply *RPCReply) *RPCReply {
+	switch {
+	case call.Header.Program == NFS_PROGRAM && call.Header.Version == NFS_V3:
+		switch call.Header.Procedure {
+		case NFSPROC3_GETATTR:
+			return nfsErrorReply(reply, NFSERR_JUKEBOX)
+		case NFSPROC3_SETATTR, NFSPROC3_WRITE, NFSPROC3_CREATE, NFSPROC3_MKDIR, NFSPROC3_SYMLINK,
+			NFSPROC3_MKNOD, NFSPROC3_REMOVE, NFSPROC3_RMDIR, NFSPROC3_COMMIT:
+			return nfsErrorWithWcc(reply, NFSERR_JUKEBOX)
+		case NFSPROC3_RENAME:
+			return nfsErrorWithDoubleWcc(reply, NFSERR_JUKEBOX)
+		case NFSPROC3_LINK:
+			return nfsErrorWithPostOpAndWcc(reply, NFSERR_JUKEBOX)
+		case NFSPROC3_LOOKUP, NFSPROC3_ACCESS, NFSPROC3_READLINK, NFSPROC3_READ, NFSPROC3_READDIR,
+			NFSPROC3_READDIRPLUS, NFSPROC3_FSSTAT, NFSPROC3_FSINFO, NFSPROC3_PATHCONF:
+			return nfsErrorWithPostOp(reply, NFSERR_JUKEBOX)
+		}
+	case call.Header.Program == MOUNT_PROGRAM && call.Header.Version == MOUNT_V3 && call.Header.Procedure == 1:
+		return nfsErrorReply(reply, 10006) // MNT3ERR_SERVERFAULT
+	}
+	reply.AcceptStatus = SYSTEM_ERR
+	return reply
 }
 
 // Helper functions for common operations
